@@ -9,6 +9,7 @@ package refredis
 
 import (
 	"bytes"
+	"encoding/json"
 	"sort"
 	"strconv"
 	"strings"
@@ -1046,4 +1047,56 @@ func (d *DB) Dump(key string) string {
 		}
 		return b.String()
 	}
+}
+
+type entryJSON struct {
+	K int
+	S []byte             `json:",omitempty"`
+	F []string           `json:",omitempty"`
+	H map[string][]byte  `json:",omitempty"`
+	L [][]byte           `json:",omitempty"`
+	M []string           `json:",omitempty"`
+	Z map[string]float64 `json:",omitempty"`
+	T int64              `json:",omitempty"`
+}
+
+// Snapshot serialises the value of one key deterministically ("" = absent).
+func (d *DB) Snapshot(key string) string {
+	e := d.m[key]
+	if e == nil {
+		return ""
+	}
+	j := entryJSON{K: int(e.kind), S: e.str, F: e.fields, H: e.hash, L: e.list, Z: e.zset, T: e.ttl}
+	for m := range e.set {
+		j.M = append(j.M, m)
+	}
+	sort.Strings(j.M)
+	b, _ := json.Marshal(j)
+	return string(b)
+}
+
+// Restore puts a snapshot back under key.
+func (d *DB) Restore(key, snap string) {
+	if snap == "" {
+		delete(d.m, key)
+		return
+	}
+	var j entryJSON
+	if json.Unmarshal([]byte(snap), &j) != nil {
+		return
+	}
+	e := &Entry{kind: kind(j.K), str: j.S, fields: j.F, hash: j.H, list: j.L, zset: j.Z, ttl: j.T}
+	if e.kind == kSet {
+		e.set = map[string]struct{}{}
+		for _, m := range j.M {
+			e.set[m] = struct{}{}
+		}
+	}
+	if e.kind == kHash && e.hash == nil {
+		e.hash = map[string][]byte{}
+	}
+	if e.kind == kZSet && e.zset == nil {
+		e.zset = map[string]float64{}
+	}
+	d.m[key] = e
 }
